@@ -5,7 +5,9 @@ import (
 	"flag"
 	"fmt"
 	"os"
+	"os/exec"
 	"path/filepath"
+	"regexp"
 	"sort"
 	"strconv"
 	"strings"
@@ -18,6 +20,8 @@ type KnownFinding struct {
 	Status     string `json:"status"` // known | fixed
 	What       string `json:"what"`
 	Witness    string `json:"witness,omitempty"`
+	WitnessPkg string `json:"witness_pkg,omitempty"`
+	WitnessFlg string `json:"witness_flags,omitempty"`
 	Commit     string `json:"commit,omitempty"`
 	KF         string `json:"kf,omitempty"`
 }
@@ -301,6 +305,37 @@ func cmdCheck(args []string) int {
 			fmt.Printf("  obligation: %s\n  reason: %s\n", v.id, v.why)
 		}
 	}
+	// thorough tier: replay the witnesses of recorded findings against the real code. A repaired defect whose
+	// witness fails again is a violation at the level of behaviour (whatever the contracts say); a known finding
+	// whose witness no longer fails is reported as a note.
+	var witnessLines []string
+	if *tier == "thorough" && !*writeClaims {
+		done := map[string]bool{}
+		for _, k := range known {
+			if k.Property != *prop || k.Witness == "" || done[k.Witness] {
+				continue
+			}
+			done[k.Witness] = true
+			pass, out := runWitness(*repo, k)
+			switch {
+			case k.Status == "fixed" && !pass:
+				nviol++
+				repDir := filepath.Join(verifRoot(), "replays", *prop)
+				os.MkdirAll(repDir, 0o755)
+				path := filepath.Join(repDir, "witness_"+sanitize(k.KF)+".txt")
+				os.WriteFile(path, []byte("witness of the repaired defect "+k.KF+" ("+k.Commit+") fails again on this tree\n"+k.What+"\n\n"+out), 0o644)
+				fmt.Printf("VIOLATION property=%s replay=%s\n  witness %s of repaired defect %s fails again\n", *prop, path, k.Witness, k.KF)
+				witnessLines = append(witnessLines, k.KF+": witness FAILS again (repaired defect returned)")
+			case k.Status == "fixed":
+				witnessLines = append(witnessLines, k.KF+": witness passes (defect stays repaired)")
+			case pass:
+				witnessLines = append(witnessLines, k.KF+": witness of the known finding no longer fails on this tree")
+				fmt.Printf("NOTE property=%s the witness of known finding %s no longer fails\n", *prop, k.KF)
+			default:
+				witnessLines = append(witnessLines, k.KF+": witness fails as recorded (finding reproduces on the real code)")
+			}
+		}
+	}
 	if *verbose {
 		for _, u := range units {
 			for _, o := range u.Obls {
@@ -335,6 +370,7 @@ func cmdCheck(args []string) int {
 		"solver_time_s":            round3(solverSecs),
 		"load_time_s":              round3(loadS),
 		"known_findings":           kfLines,
+		"witness_replays":          witnessLines,
 		"unclaimed_obligations":    unclaimedSeen,
 		"claimed_in_file":          len(claims.Claimed),
 		"explanation":              "every obligation is regenerated from the current source of " + *repo + " and must be unsat; unclaimed and known-finding obligations are listed but not counted",
@@ -368,4 +404,38 @@ func matchKF(m map[string]KnownFinding, id string) (KnownFinding, bool) {
 
 func round3(f float64) float64 {
 	return float64(int(f*1000+0.5)) / 1000
+}
+
+// runWitness runs one witness test (a Go test file kept under /verif/selftest/witness) inside the package of the
+// repository it belongs to, injected through -overlay so that nothing is written to the repository.
+func runWitness(repo string, k KnownFinding) (bool, string) {
+	src := filepath.Join(verifRoot(), k.Witness)
+	pkg := k.WitnessPkg
+	if pkg == "" {
+		pkg = "."
+	}
+	dir, err := os.MkdirTemp("/var/tmp", "govc-witness-")
+	if err != nil {
+		return false, err.Error()
+	}
+	defer os.RemoveAll(dir)
+	target := filepath.Join(repo, pkg, "zz_verif_witness_test.go")
+	ov := fmt.Sprintf(`{"Replace": {%q: %q}}`, target, src)
+	ovPath := filepath.Join(dir, "overlay.json")
+	os.WriteFile(ovPath, []byte(ov), 0o644)
+	b, _ := os.ReadFile(src)
+	name := "TestVerif"
+	if m := regexp.MustCompile(`func (TestVerif\w+)\(`).FindSubmatch(b); m != nil {
+		name = string(m[1])
+	}
+	args := []string{"test", "-overlay", ovPath, "-vet=off", "-count=1", "-timeout", "300s", "-run", "^" + name + "$"}
+	if k.WitnessFlg != "" {
+		args = append(args, strings.Fields(k.WitnessFlg)...)
+	}
+	args = append(args, "./"+pkg)
+	cmd := exec.Command("go", args...)
+	cmd.Dir = repo
+	cmd.Env = append(os.Environ(), "GOWORK=off", "GOFLAGS=-mod=mod", "GOPROXY=off", "GOSUMDB=off")
+	out, err := cmd.CombinedOutput()
+	return err == nil, string(out)
 }
